@@ -1550,6 +1550,84 @@ def _explicit_loops(fi: FuncInfo, node: ast.AST) -> bool:
     def stored_in(name: str, stmts: list) -> bool:
         return any(isinstance(x.ctx, (ast.Store, ast.Del)) and inside(x, stmts) for x in occ.get(name, []))
 
+    def worklist(st: ast.While) -> str | None:
+        """the local list a `while <name>:` / `while len(<name>) [> 0]:` loop runs on, when the loop takes elements off it with .pop"""
+        t = strip_cast(st.test)
+        if isinstance(t, ast.Compare) and len(t.ops) == 1 and isinstance(t.ops[0], (ast.Gt, ast.NotEq)) and const_value(t.comparators[0]) == 0 \
+                and not isinstance(const_value(t.comparators[0]), bool):
+            t = strip_cast(t.left)
+        if isinstance(t, ast.Call) and chain(t.func) == "len" and len(t.args) == 1 and not t.keywords:
+            t = strip_cast(t.args[0])
+        if not isinstance(t, ast.Name) or t.id in params:
+            return None
+        pops = [x for b in st.body for x in ast.walk(b) if isinstance(x, ast.Call) and isinstance(x.func, ast.Attribute) and x.func.attr == "pop"
+                and isinstance(x.func.value, ast.Name) and x.func.value.id == t.id]
+        return t.id if pops else None
+
+    def unstack(st: ast.While, name: str, blk_prev):
+        """The worklist loop as the `for` it is.  `name` is bound once, right before the loop, to a fresh reversed copy of SEQ
+        (list(reversed(SEQ)) / list(SEQ)[::-1]) and every other occurrence of it is the loop test and ONE `T = name.pop()` that opens
+        the body: nothing is pushed, nothing else is popped, so the loop takes the elements of SEQ as they were when the copy was
+        made, first to last, one per iteration, until none is left -> `for T in list(SEQ): BODY` (continue / break mean the same).
+        With a queue (list(SEQ), popped at index 0) likewise.  Anything else done to a worklist that was filled from a cache's
+        futures / the table is not followed: `undecided` - except a pop whose result is thrown away while nothing is ever pushed,
+        which skips elements for certain: that loop is left as written for the rules to judge."""
+        uses = occ.get(name, [])
+        stores = [x for x in uses if isinstance(x.ctx, (ast.Store, ast.Del))]
+        bound = isinstance(blk_prev, ast.Assign) and len(blk_prev.targets) == 1 and isinstance(blk_prev.targets[0], ast.Name) \
+            and blk_prev.targets[0].id == name and len(stores) == 1
+        v = strip_cast(blk_prev.value) if bound else None
+        seq, fifo = None, False
+
+        def copy_of(e):
+            e = strip_cast(e)
+            if isinstance(e, ast.Call) and chain(e.func) in ("list", "tuple") and len(e.args) == 1 and not e.keywords and not isinstance(e.args[0], ast.Starred):
+                return e.args[0]
+            return None
+
+        def rev_slice(e):
+            s = e.slice if isinstance(e, ast.Subscript) else None
+            return isinstance(s, ast.Slice) and s.lower is None and s.upper is None and const_value(s.step) == -1 \
+                and not isinstance(const_value(s.step), bool)
+        if v is not None:
+            inner = copy_of(v)
+            if inner is not None and isinstance(strip_cast(inner), ast.Call) and chain(strip_cast(inner).func) == "reversed" \
+                    and len(strip_cast(inner).args) == 1 and not strip_cast(inner).keywords and not isinstance(strip_cast(inner).args[0], ast.Starred):
+                seq = strip_cast(inner).args[0]                                   # list(reversed(SEQ))
+            elif rev_slice(v) and copy_of(v.value) is not None:
+                seq = copy_of(v.value)                                            # list(SEQ)[::-1]
+            elif inner is not None and chain(v.func) == "list":
+                seq, fifo = inner, True                                           # list(SEQ), taken from the front
+        first = st.body[0] if st.body else None
+        fv = strip_cast(first.value) if isinstance(first, ast.Assign) and len(first.targets) == 1 and plain_target(first.targets[0]) else None
+        head = isinstance(fv, ast.Call) and isinstance(fv.func, ast.Attribute) and fv.func.attr == "pop" and isinstance(fv.func.value, ast.Name) \
+            and fv.func.value.id == name and not fv.keywords \
+            and ((not fifo and not fv.args) or (fifo and len(fv.args) == 1 and const_value(fv.args[0]) == 0 and not isinstance(const_value(fv.args[0]), bool)))
+        if seq is not None and head and only_in(name, [blk_prev.targets[0], st.test, fv.func]) and name not in target_names(first.targets[0]) \
+                and not any(isinstance(x, (ast.Yield, ast.YieldFrom, ast.Await, ast.NamedExpr, ast.Lambda)) for x in ast.walk(seq)):
+            it = ast.copy_location(ast.Call(ast.Name("list", ast.Load()), [seq], []), blk_prev)
+            return [ast.copy_location(ast.For(first.targets[0], it, st.body[1:] or [ast.copy_location(ast.Pass(), st)], [], None), st)]
+        # not the plain traversal.  Does it concern this property at all?
+        feeds = [parent(x).value for x in stores if isinstance(parent(x), ast.Assign)]
+        relevant = any((isinstance(y, ast.Attribute) and (y.attr in _managed_names() or _is_table(fi, y))) for f in feeds for y in ast.walk(f))
+        if not relevant:
+            return None
+        def measured(x: ast.Name) -> bool:
+            """`if name:` / `not name` / `len(name)`: only asks whether anything is left"""
+            q = parent(x)
+            return (isinstance(q, (ast.If, ast.While, ast.IfExp)) and q.test is x) or (isinstance(q, ast.UnaryOp) and isinstance(q.op, ast.Not)) \
+                or (isinstance(q, ast.Call) and chain(q.func) == "len" and len(q.args) == 1 and q.args[0] is x)
+        # every use is the binding, a test, or `name.pop()`; one pop at least throws its element away: elements are skipped
+        only_pops = all(isinstance(x.ctx, ast.Store) or any(a is st.test for a in [x, *ancestors(x)]) or measured(x) or (
+            isinstance(parent(x), ast.Attribute) and parent(x).attr == "pop" and isinstance(parent(parent(x)), ast.Call) and parent(parent(x)).func is parent(x))
+            for x in uses)
+        dropped = any(isinstance(parent(x), ast.Attribute) and parent(x).attr == "pop" and isinstance(parent(parent(x)), ast.Call)
+                      and isinstance(parent(parent(parent(x))), ast.Expr) for x in uses)
+        if bound and only_pops and dropped:
+            return None
+        raise AnalysisError(f"undecided: {fi.qualname} walks a worklist `{name}` filled from the managed futures / the table in a way that is not followed "
+                            "(bound more than once, pushed to, popped elsewhere than at the loop head)")
+
     def fn(st):
         blk_prev = getattr(st, "_c10_prev", None)
         if isinstance(st, ast.While) and not st.orelse:
@@ -1596,6 +1674,12 @@ def _explicit_loops(fi: FuncInfo, node: ast.AST) -> bool:
                         and not _own_level(st.body, (ast.Continue,)) \
                         and all(only_in(v, [st]) and not stored_in(v, st.body[1:]) for v in target_names(first.targets[0])):
                     return [ast.copy_location(ast.For(first.targets[0], ast.Name(seq, ast.Load()), st.body[1:-1] or [ast.copy_location(ast.Pass(), st)], [], None), st)]
+            # G. stack = list(reversed(SEQ)) / while stack: x = stack.pop(); BODY      (also list(SEQ)[::-1]; queue = list(SEQ) .. queue.pop(0))
+            wl = worklist(st)
+            if wl is not None:
+                r = unstack(st, wl, blk_prev)
+                if r is not None:
+                    return r
         if isinstance(st, ast.For) and not st.orelse:
             it = strip_cast(st.iter)
             first = st.body[0] if st.body else None
@@ -2984,11 +3068,191 @@ def _desugar_new_managers(fi: FuncInfo, node: ast.AST) -> bool:
     return changed
 
 
+_QUIET_CALLS = (*_BOOL_BUILTINS, "len")
+
+
+def _fold_row_scans(fi: FuncInfo, node: ast.AST) -> bool:  # noqa: C901, PLR0915
+    """A first-match scan of an ordered literal table of (lazy predicate, value ..) rows is written as the cascade it computes:
+
+        ROWS = ((lambda: P1, V1), (f2, V2), ...)                      if P1:      X = ELT[V1]
+        X = next((ELT for pred, v in ROWS if pred()), D)      ->      elif f2():  X = ELT[V2]
+                                                                      else:       X = D        (no D: raise StopIteration)
+
+    Exact because: the table is a display built right before the scan (or inside it), rows are tried in order and the scan stops at the
+    first predicate that holds (same laziness); a parameter-less lambda reads its free names when it is called, which is where its body
+    now stands (no walrus / yield / await inside); the other row elements and D are names, attribute reads, literals (evaluating them
+    where the row is chosen instead of where the table is built gives the same object as long as the predicates tried before only ask
+    questions: checked).  When the statement that follows is `if X is [not] None: ..` and every value is known to be None / not None,
+    that statement is decided per row and moves into the branches (X written as the row's value).  A scan of this form that does not
+    meet the conditions is answered `undecided`, never judged as written."""
+    occ: dict[str, list[ast.Name]] = {}
+    for x in ast.walk(node):
+        if isinstance(x, ast.Name):
+            occ.setdefault(x.id, []).append(x)
+    params = {x.arg for x in ast.walk(node) if isinstance(x, ast.arg)}
+    changed = [False]
+
+    def undecided(why: str):
+        raise AnalysisError(f"undecided: {fi.qualname} picks a value by a first-match scan over a table of rows that cannot be written out ({why})")
+
+    def quiet(p: ast.expr) -> bool:
+        for x in ast.walk(p):
+            if isinstance(x, (ast.Await, ast.Yield, ast.YieldFrom, ast.NamedExpr)):
+                return False
+            if isinstance(x, ast.Call) and not (chain(x.func) in _QUIET_CALLS or (
+                    isinstance(x.func, ast.Attribute) and x.func.attr in ("done", "cancelled") and not x.args and not x.keywords)):
+                return False
+        return True
+
+    def not_none(v: ast.expr) -> bool | None:
+        v = strip_cast(v)
+        if isinstance(v, ast.Lambda):
+            return True
+        if isinstance(v, ast.Constant):
+            return v.value is not None
+        if isinstance(v, ast.Attribute) and isinstance(v.value, ast.Name) and v.value.id == "self" and fi.cls is not None \
+                and isinstance(fi.cls.lookup(v.attr), FuncInfo) and not fi.cls.lookup(v.attr).decorators:
+            return True
+        if isinstance(v, ast.Attribute) and v.attr in _FUTURE_METHODS:
+            return True
+        return None
+
+    def scan(st, prev, nxt):
+        if not (isinstance(st, ast.Assign) and len(st.targets) == 1 and isinstance(st.targets[0], ast.Name)):
+            return None
+        call = strip_cast(st.value)
+        if not (isinstance(call, ast.Call) and chain(call.func) == "next" and not call.keywords and 1 <= len(call.args) <= 2
+                and isinstance(call.args[0], ast.GeneratorExp)):
+            return None
+        g = call.args[0]
+        if len(g.generators) != 1 or g.generators[0].is_async or len(g.generators[0].ifs) != 1:
+            return None
+        gen = g.generators[0]
+        test = gen.ifs[0]
+        if not (isinstance(gen.target, (ast.Tuple, ast.List)) and all(isinstance(t, ast.Name) for t in gen.target.elts)
+                and isinstance(test, ast.Call) and isinstance(test.func, ast.Name) and not test.args and not test.keywords):
+            return None
+        names = [t.id for t in gen.target.elts]
+        if len(set(names)) != len(names) or test.func.id not in names:
+            return None
+        pcol = names.index(test.func.id)
+        x_name = st.targets[0].id
+        it = strip_cast(gen.iter)
+        table, drop_prev = it, False
+        if isinstance(it, ast.Name):
+            stores = [o for o in occ.get(it.id, []) if isinstance(o.ctx, (ast.Store, ast.Del))]
+            if not (isinstance(prev, ast.Assign) and len(prev.targets) == 1 and isinstance(prev.targets[0], ast.Name) and prev.targets[0].id == it.id
+                    and it.id not in params and len(stores) == 1 and it.id != x_name):
+                undecided("the table is not a display bound once right before the scan")
+            table = strip_cast(prev.value)
+            drop_prev = len(occ.get(it.id, [])) == 2
+        if not isinstance(table, (ast.Tuple, ast.List)):
+            return None
+        # from here on the statement IS a row scan: either written out or undecided
+        if not table.elts or len(table.elts) > 12:
+            undecided("empty or very long table")
+        if any(isinstance(x, ast.Name) and x.id == test.func.id for x in ast.walk(g.elt)) or x_name in names:
+            undecided("the predicate itself is part of the result")
+        default = call.args[1] if len(call.args) == 2 else None
+        if default is not None and (isinstance(default, ast.Starred) or not _simple_value(default)):
+            undecided("the default is computed")
+        tests, values, eager_reads = [], [], default is not None and isinstance(strip_cast(default), ast.Attribute)
+        for row in table.elts:
+            row = strip_cast(row)
+            if not (isinstance(row, (ast.Tuple, ast.List)) and len(row.elts) == len(names) and not any(isinstance(e, ast.Starred) for e in row.elts)):
+                undecided("a row is not a display of the scanned width")
+            pe = strip_cast(row.elts[pcol])
+            if isinstance(pe, ast.Lambda):
+                a = pe.args
+                if a.args or a.posonlyargs or a.kwonlyargs or a.vararg or a.kwarg:
+                    undecided("a predicate takes parameters")
+                if any(isinstance(x, (ast.NamedExpr, ast.Yield, ast.YieldFrom, ast.Await)) for x in ast.walk(pe.body)):
+                    undecided("a predicate binds names / suspends")
+                tests.append(pe.body)
+            elif _simple_value(pe) and not isinstance(pe, ast.Constant):
+                eager_reads = eager_reads or isinstance(pe, ast.Attribute)
+                tests.append(ast.copy_location(ast.Call(pe, [], []), pe))
+            else:
+                undecided("a predicate is neither a parameter-less lambda nor a plain callable")
+            sub = {}
+            for k, e in enumerate(row.elts):
+                if k == pcol:
+                    continue
+                if not _simple_value(e):
+                    undecided("a row value is computed")
+                eager_reads = eager_reads or isinstance(strip_cast(e), ast.Attribute)
+                sub[names[k]] = e
+            values.append(_Rename({}, sub).visit(clone(g.elt)))
+        if eager_reads and not all(quiet(t) for t in tests):
+            undecided("a predicate may change what a row value reads")
+        leaves = [*values, default]
+        branch, used = None, 0
+        if isinstance(nxt, ast.If):
+            t = strip_cast(nxt.test)
+            if isinstance(t, ast.Compare) and len(t.ops) == 1 and isinstance(t.ops[0], (ast.Is, ast.IsNot)) and _is_none(t.comparators[0]) \
+                    and isinstance(strip_cast(t.left), ast.Name) and strip_cast(t.left).id == x_name \
+                    and not any(isinstance(o, ast.Name) and o.id == x_name and isinstance(o.ctx, (ast.Store, ast.Del)) for o in ast.walk(nxt)) \
+                    and all(v is None or not_none(v) is not None for v in leaves):
+                some, none = (nxt.body, nxt.orelse) if isinstance(t.ops[0], ast.IsNot) else (nxt.orelse, nxt.body)
+                branch, used = (some, none), 1
+
+        x_local = x_name not in params and branch is not None and all(
+            o is st.targets[0] or any(a is nxt for a in ancestors(o)) for o in occ.get(x_name, []))
+
+        def leaf(v: ast.expr | None) -> list:
+            if v is None:
+                return [ast.copy_location(ast.Raise(ast.Call(ast.Name("StopIteration", ast.Load()), [], []), None), st)]
+            out = [ast.copy_location(ast.Assign([ast.Name(x_name, ast.Store())], clone(v)), st)]
+            if branch is not None:
+                chosen = branch[0] if not_none(v) else branch[1]
+                stored = {o.id for b in chosen for o in ast.walk(b) if isinstance(o, ast.Name) and isinstance(o.ctx, (ast.Store, ast.Del))}
+                plain = not isinstance(strip_cast(v), ast.Lambda) and not (_names(v) & stored)
+                if plain and x_local:
+                    # X is read nowhere else: with its value written in place the binding itself is dead
+                    out = []
+                out += [(_Rename({}, {x_name: v}).visit(clone(b)) if plain else clone(b)) for b in chosen]
+            return out or [ast.copy_location(ast.Pass(), st)]
+        last_always = isinstance(strip_cast(tests[-1]), ast.Constant) and strip_cast(tests[-1]).value is True
+        tail = leaf(values[-1]) if last_always else [ast.copy_location(ast.If(clone(tests[-1]), leaf(values[-1]), leaf(default)), st)]
+        for t, v in reversed(list(zip(tests[:-1], values[:-1]))):
+            tail = [ast.copy_location(ast.If(clone(t), leaf(v), tail), st)]
+        return tail, drop_prev, used
+
+    def block(stmts: list) -> list:
+        out: list = []
+        i = 0
+        while i < len(stmts):
+            st = stmts[i]
+            if not isinstance(st, (ast.FunctionDef, ast.AsyncFunctionDef, ast.ClassDef)):
+                for f in ("body", "orelse", "finalbody"):
+                    v = getattr(st, f, None)
+                    if isinstance(v, list) and v and isinstance(v[0], ast.stmt):
+                        setattr(st, f, block(v))
+                for h in getattr(st, "handlers", None) or []:
+                    h.body = block(h.body)
+                r = scan(st, out[-1] if out else None, stmts[i + 1] if i + 1 < len(stmts) else None)
+                if r is not None:
+                    new, drop_prev, used = r
+                    if drop_prev:
+                        out.pop()
+                    out.extend(new)
+                    changed[0] = True
+                    i += 1 + used
+                    continue
+            out.append(st)
+            i += 1
+        return out
+    node.body = block(node.body)
+    return changed[0]
+
+
 def _view(ctx: Ctx, fi: FuncInfo) -> FuncInfo:
     """fi as the rules read it - a private copy on which only behaviour-preserving rewrites are made: `with suppress(E)` written as
     try / except E: pass; every `for` over a filtered generator expression / map / filter pipeline or over a call of a generator
     helper expanded in place; every eagerly consumed comprehension statement written as the loop it runs; NEW helpers that became
-    directly called by that inlined; every record-holding local replaced by one local per field."""
+    directly called by that inlined; every record-holding local replaced by one local per field; every first-match scan over a
+    literal table of (lazy predicate, value) rows written as the if-cascade it computes (_fold_row_scans); every worklist loop over a
+    fresh reversed copy (`stack = list(reversed(S))` / `while stack: x = stack.pop()`) written as `for x in list(S)` (_explicit_loops G)."""
     _use(ctx)
     store = ctx.__dict__.setdefault("_c10_views", {})
     hit = store.get(id(fi.node))
@@ -3023,6 +3287,11 @@ def _build_view(ctx: Ctx, fi: FuncInfo) -> FuncInfo:
     for round_ in range(3):
         tmp = FuncInfo(fi.name, fi.qualname, node, fi.module, fi.cls)
         changed = False
+        if any(isinstance(x, ast.Call) and chain(x.func) == "next" and x.args and isinstance(x.args[0], ast.GeneratorExp) for x in walk_no_nested(node)) \
+                and _fold_row_scans(fi, node):
+            changed = True
+            ast.fix_missing_locations(node)
+            set_parents(node)
         if _inline_new_helpers(fi, node):
             changed = True
             ast.fix_missing_locations(node)
